@@ -20,7 +20,7 @@ for i in ids:
         level_claimed=dict(category=p["level"], text=p["level_text"], design_ref=p.get("design_ref", "DESIGN.md §5")),
         level_note=p["level_note"], technique=p["technique"]))
 man = dict(version=1,
-  setup_cmd="bash -c 'export GOFLAGS=-mod=mod GOPROXY=off GOSUMDB=off GOTOOLCHAIN=local; coq/build.sh && cp /repo/go.sum harness/go.sum && (cd harness && go build -o ../run/bin/kvqlcorr .)'",
+  setup_cmd="bash -c 'export GOFLAGS=-mod=mod GOPROXY=off GOSUMDB=off GOTOOLCHAIN=local; coq/build.sh $(for p in $(cat props/ENABLED); do echo Properties/$p.vo Corr/$p.vo; done) && cp /repo/go.sum harness/go.sum && (cd harness && go build -o ../run/bin/kvqlcorr .)'",
   hooks=dict(guard="verif", enable="none needed: everything observed is public API of /repo (plan fields, Lexer.Split, Parser.Parse, Expression.Execute/ExecuteBatch, SyntaxError) and the harness's own Storage; the tag is reserved",
              baseline_off_cmd="cd /repo && GOFLAGS=-mod=mod GOPROXY=off GOSUMDB=off GOTOOLCHAIN=local go test -vet=off -count=1 ./...",
              source_commits=[], add_only=True),
